@@ -41,7 +41,7 @@ TClaim == IsEvent("claim") /\ SClaimCall(R.hash)
 TEvent ==
   /\ IsEvent("event")
   /\ CASE R.kind = "PaymentSent" -> SEvSent(R.node, R.pid, R.hash, R.preimage_ok, R.fee)
-       [] R.kind = "PaymentFailed" -> SEvFailed(R.node, R.pid)
+       [] R.kind = "PaymentFailed" -> SEvFailed(R.node, R.pid, R.pend)
        [] R.kind = "PaymentPathFailed" -> SEvPathFailed(R.node, R.pid, R.hash, R.blamed, R.initial, R.path)
        [] OTHER -> Stutter
 
@@ -71,7 +71,7 @@ TQuiet ==
 
 TOther ==
   /\ l <= Len(Rec)
-  /\ Rec[l].ev \in {"reg", "failback", "forward", "tick", "block", "disconnect", "reconnect", "handled", "abandon", "broadcast", "settle_chain", "settled", "mine_skipped", "persist_mode"}
+  /\ Rec[l].ev \in {"reg", "failback", "forward", "tick", "block", "disconnect", "reconnect", "handled", "abandon", "broadcast", "settle_chain", "settled", "mine_skipped", "persist_mode", "config"}
   /\ l' = l + 1 /\ Stutter
 
 TraceNext == TOpen \/ TSend \/ TPersist \/ TComplete \/ TMsg \/ TDeliver \/ TClaim \/ TEvent \/ TSave \/ TRestart \/ TRecent \/ TChain \/ TQuiet \/ TOther
